@@ -156,7 +156,8 @@ fn gen_case(r: &mut Prng, big: bool) -> Case {
             let (prog, ctx) = if long_history && r.chance(2, 3) { pool[pool.len() - 2 + r.usize(2)].clone() } else { r.pick(&pool).clone() };
             // every operation gets its own context; sometimes one that differs from the program's usual one
             let ctx = if r.chance(1, 4) { r.pick(&pool).1.clone() } else { ctx };
-            ops.push(match r.below(8) {
+            let very_long = nops >= 1000;
+            ops.push(match if very_long { 4 + r.below(2) } else { r.below(8) } {
                 0 | 1 => Op::Parse { prog },
                 2 | 3 => Op::Exec { prog, ctx: CtxRef::Fresh(ctx) },
                 4 => Op::ParseExec { prog, ctx: CtxRef::Fresh(ctx), times: 1 },
